@@ -4,38 +4,8 @@ use std::collections::BinaryHeap;
 use core::cmp::Ordering;
 use vstd::std_specs::cmp::*;
 //@ import-unit message
+//@ include vx/heap_spec.rs
 verus! {
-
-// ---------------------------------------------------------------------------
-// ASSUMED specification of std::collections::BinaryHeap (vstd has none).
-// Abstraction: the elements in the order successive pops would return them.
-// ---------------------------------------------------------------------------
-#[verifier::external_type_specification]
-#[verifier::external_body]
-#[verifier::accept_recursive_types(T)]
-#[verifier::accept_recursive_types(A)]
-pub struct ExBinaryHeap<T, A: std::alloc::Allocator>(BinaryHeap<T, A>);
-
-pub uninterp spec fn heap_seq<T, A: std::alloc::Allocator>(h: BinaryHeap<T, A>) -> Seq<T>;
-
-/// pop order is non-increasing w.r.t. the element order
-pub open spec fn heap_sorted<T: Ord>(s: Seq<T>) -> bool {
-    forall|i: int, j: int| 0 <= i < j < s.len() ==> OrdSpec::cmp_spec(&s[i], &s[j]) != Ordering::Less
-}
-
-pub assume_specification<T> [BinaryHeap::<T>::new] () -> (r: BinaryHeap<T>)
-    ensures heap_seq(r) == Seq::<T>::empty();
-pub assume_specification<T: Ord, A: std::alloc::Allocator> [BinaryHeap::<T, A>::push] (h: &mut BinaryHeap<T, A>, item: T)
-    ensures
-        heap_seq(*final(h)).to_multiset() == heap_seq(*old(h)).to_multiset().insert(item),
-        heap_seq(*final(h)).len() == heap_seq(*old(h)).len() + 1,
-        // (a consequence of the multiset clause, stated for convenience)
-        forall|i: int| 0 <= i < heap_seq(*final(h)).len() ==> (#[trigger] heap_seq(*final(h))[i]) == item || heap_seq(*old(h)).contains(heap_seq(*final(h))[i]),
-        heap_sorted(heap_seq(*final(h)));
-pub assume_specification<T: Ord, A: std::alloc::Allocator> [BinaryHeap::<T, A>::pop] (h: &mut BinaryHeap<T, A>) -> (r: Option<T>)
-    ensures
-        heap_seq(*old(h)).len() == 0 ==> r is None && heap_seq(*final(h)) == heap_seq(*old(h)),
-        heap_seq(*old(h)).len() > 0 ==> r == Some(heap_seq(*old(h))[0]) && heap_seq(*final(h)) == heap_seq(*old(h)).subrange(1, heap_seq(*old(h)).len() as int);
 
 // ---------------------------------------------------------------------------
 // reassembly/bitvec.rs — abstraction: the set of bit positions that are high
